@@ -187,7 +187,21 @@ def run_instance(cid, inst_index, tier, seed=0, repo_src=None, native_trials=0, 
 
     native = NativeBackend(repo_src)
     if failed:
-        _search_counterexamples(world, con, inst, label, k0, failed, res, native, seed, prop)
+        from .ctx import InstanceTimeout
+
+        try:
+            _search_counterexamples(world, con, inst, label, k0, failed, res, native, seed, prop)
+        except InstanceTimeout:
+            # out of time while looking for a failing input: report what is established
+            done_ids = {v["obligation"] for v in res["violations"]} | {u["obligation"] for u in res["undecided"]}
+            for oid, ob, r, pi in failed:
+                if oid in done_ids:
+                    continue
+                if r.status == "refuted":
+                    path = write_replay(prop, con, inst, label, oid, {"obligation": ob.name, "sizes": {}, "inputs": {}, "failures": [], "solver_model": str(r.model)[:4000] if r.model is not None else r.reason, "how": "VC refuted by the solver; time limit reached while searching a native failing input"}, reproduced=False)
+                    res["violations"].append({"obligation": oid, "name": ob.name, "status": r.status, "backend": r.backend, "reason": r.reason, "replay": path, "reproduced": False, "detail": "refuted"})
+                else:
+                    res["undecided"].append({"obligation": oid, "reason": f"solver: {r.status}; time limit reached during the counterexample search"})
     # CPython differential (thorough tier): contract vs real code on random small inputs
     if native_trials and not failed:
         bad = _differential(world, con, inst, k0, native, native_trials, seed)
@@ -246,11 +260,14 @@ def _search_counterexamples(world, con, inst, label, k0, failed, res, native, se
             ctxs, kb = _run_paths(world, con, inst, "bounded", sizes=sizes)
         except (Undecided, Exception):  # noqa: BLE001
             continue
+        tried_here = 0
         for ctx in ctxs:
             for ob in ctx.obls:
-                if ob.name not in names_failed:
+                if ob.name not in names_failed or tried_here >= 6 or time.time() - t_start > budget:
                     continue
-                r = vc.discharge(ctx.hyps[: ob.nhyps], ob.goal, timeout_ms=8000, portfolio=False)
+                tried_here += 1
+                # bounded VCs are quantifier-free: a counter-model, if any, is found quickly
+                r = vc.discharge(ctx.hyps[: ob.nhyps], ob.goal, timeout_ms=4000, portfolio=False)
                 res["solver_s"] += r.secs
                 if r.status != "refuted" or r.model is None:
                     continue
